@@ -23,7 +23,7 @@ def run(chk):
         "Decides variant -> algorithm NAME agreement, not the algorithms. With P-TRIE over sha2/sha3 (byte tries), hmac/crc/xxhash (str chains): R27a each "
         "accepted variant literal's leaf instantiates a hasher/constant whose name normalises to the literal ('SHA-512/224' -> Sha512_224, 'CRC_32_ISCSI' -> "
         "crc::CRC_32_ISCSI, 'XXH3-64' -> xxh3_64) and to no sibling literal's name; R27b the validator table (variants()/VALID_*) equals the dispatched "
-        "set, so the `unreachable!` fall-through of sha2/sha3 really is unreachable; R27c md5/sha1/seahash reach their own crate. Undecided: the algorithms.")
+        "set, so the `unreachable!` fall-through of sha2/sha3 really is unreachable; R27c md5/sha1/seahash reach their own crate; R27d a digest (result of a hasher's checksum/finalize/hash/xxh* call) is never narrowed by an integer cast before it is rendered (a narrowing `as` keeps the low bits only: the wide CRCs / 128-bit hashes would no longer match). Undecided: the algorithms.")
     M = fmap.FMap(facts)
     for fn, cfg in DISPATCHERS.items():
         b = chk.anchor(fn, "R27a")
@@ -95,3 +95,50 @@ def run(chk):
         if not ok:
             chk.violation(rid, f["file"], f["self"], "`%s` implementation crate" % ident,
                           "`%s` does not (only) call its own digest crate: %s" % (ident, others[:2] or "no callee found"), detail=d)
+
+    rule_r27d(chk, M)
+
+
+HASH_OUT = re.compile(r"(^|[<:])crc::Crc<.*>::checksum$|::checksum$|xxhash_rust::\w+::xxh\w+$|seahash::\w*::?hash\w*$|seahash::hash$|::finalize$|::finalize_fixed$|::digest$|::into_bytes$")
+WIDTH = {"u8": 8, "i8": 8, "u16": 16, "i16": 16, "u32": 32, "i32": 32, "u64": 64, "i64": 64, "usize": 64, "isize": 64, "u128": 128, "i128": 128}
+DIGEST_FUNCS = ("crc", "xxhash", "seahash", "md5", "sha1", "sha2", "sha3", "hmac")
+
+
+def rule_r27d(chk, M):
+    from facts import flow_sources, op_local
+    facts = chk.facts
+    rid = "R27d"
+    chk.rule(rid, "no narrowing integer cast on a value derived from a hasher's output in the digest functions", floor=8)
+    for ident in DIGEST_FUNCS:
+        f = M.by_ident.get(ident)
+        if f is None:
+            chk.fail_closed(rid, "digest function `%s` not found in the registry" % ident)
+            continue
+        roots = [r for r in (M.resolve_body(e) for e in f["exprs"]) if r]
+        seen, _ext, _par = facts.reach(roots, stop=lambda c: c.startswith("dyn ") or c.startswith("? "), cha=False)
+        bodies = [n for n in seen if facts.has(n) and (n.startswith("stdlib::") or n.startswith("<stdlib::"))]
+        n_casts = 0
+        bad = []
+        for n in bodies:
+            b = facts.body(n)
+            for bi, si, st in b.iter_stmts():
+                rv = st["rv"]
+                if rv["k"] != "cast" or rv.get("ck") != "IntToInt":
+                    continue
+                wf, wt = WIDTH.get(rv.get("from")), WIDTH.get(rv.get("to"))
+                if wf is None or wt is None or wt >= wf:
+                    continue
+                src = op_local(rv["op"])
+                if src is None:
+                    continue
+                n_casts += 1
+                srcs = flow_sources(b, src)
+                hs = [x for x in srcs if x[0] == "call" and HASH_OUT.search(x[2])]
+                if hs:
+                    bad.append((n, b, st, rv, hs[0][2]))
+        d = {"function": ident, "bodies_examined": len(bodies), "narrowing_casts_examined": n_casts, "on_digest": len(bad)}
+        chk.instance(rid, d, ok=not bad)
+        for k, (n, b, st, rv, cal) in enumerate(bad):
+            chk.violation(rid, b.file, n, "narrowing cast %s->%s of a digest #%d" % (rv.get("from"), rv.get("to"), k),
+                          "`%s`: the result of %s is cast %s -> %s (%s): the upper bits of the digest are dropped, so variants wider than %s bits no longer "
+                          "match the published algorithm" % (ident, cal, rv.get("from"), rv.get("to"), b.loc(st), WIDTH.get(rv.get("to"))), detail=d)
